@@ -144,6 +144,9 @@ def containers(good, bad, C=None):
             return b
         extra += [('bare/hist=nocheck', h_nocheck), ('bare/hist=mutated', h_mutated), ('bare/hist=otherclass', h_other),
                   ('[good,bad]/hist=nocheck', lambda: [good.copy(), h_nocheck()]), ('[bad]/hist=mutated', lambda: [h_mutated()])]
+    # the numbers of the matrix as nested Python sequences (what .tolist() gives), alone and inside a list
+    extra += [('nested-list', lambda: bad.tolist()), ('nested-tuple', lambda: tuple(tuple(r) for r in bad.tolist())), ('[nested]', lambda: [bad.tolist()]),
+              ('[good,nested]', lambda: [good.copy(), bad.tolist()])] if getattr(bad, 'ndim', 1) == 2 else []
     return extra + [('bare', lambda: bad.copy()), ('[bad]', lambda: [bad.copy()]), ('[good,bad]', lambda: [good.copy(), bad.copy()]),
             ('[bad,good]', lambda: [bad.copy(), good.copy()]), ('[good,bad,good]', lambda: [good.copy(), bad.copy(), good.copy()]),
             ('(bad,)', lambda: (bad.copy(),)), ('(good,bad)', lambda: (good.copy(), bad.copy()))]
@@ -217,6 +220,8 @@ def ctor_cases(ctx, cname, k, K):
                     ctx.fail(cid, cname, 'invalid-member', P, '%s(%s) returned an object: %s' % (cname, cn, bad))
         # valid member in every container is accepted and stored intact
         for cn, mk in containers(good, M):
+            if 'nested' in cn:
+                continue        # nested sequences are not a documented container form: only "no object holding a non-member" is demanded of them
             cid = 'C07/%s/%s/valid/%s' % (cname, gn, cn)
             if not ctx.want(cid):
                 continue
@@ -333,6 +338,8 @@ def twist_cases(ctx):
                     elif bad:
                         ctx.fail(cid, cname, 'invalid-member', P, bad)
             for cn, mk in containers(goodS, S):
+                if 'nested' in cn:
+                    continue
                 cid = 'C07/%s/%s/valid/%s' % (cname, vn, cn)
                 if not ctx.want(cid):
                     continue
